@@ -35,6 +35,8 @@ type Event struct {
 
 // Env carries the recorder log and knobs shared by all callbacks of one built schema.
 type Env struct {
+	// ParamMaps: the params maps handed to z.Params, by content (tests with equal params share one map)
+	ParamMaps map[string]map[string]any
 	// Sentinels: the issue values of "sentinel" complex tests, by code (one object per built schema)
 	Sentinels map[string]*z.ZogIssue
 	Log       []Event
@@ -352,7 +354,7 @@ func (e *Env) funcTestValue(n *Node, idx int, ts TestSpec) z.Test {
 		for k, v := range o.Params {
 			m[k] = v
 		}
-		t.Params = own(e, m)
+		t.Params = e.sharedParams(m)
 	}
 	if o.Msg != "" {
 		msg := o.Msg
@@ -396,9 +398,31 @@ func (e *Env) opts(o Opts) []z.TestOption {
 		for k, v := range o.Params {
 			m[k] = v
 		}
-		out = append(out, z.Params(own(e, m)))
+		out = append(out, z.Params(e.sharedParams(m)))
 	}
 	return out
+}
+
+// sharedParams: tests declared with the same params share ONE map value, as a schema file that keeps its params in a
+// package-level variable does (nothing in the library may write to it).
+func (e *Env) sharedParams(m map[string]any) map[string]any {
+	keys := make([]string, 0, len(m))
+	for k := range m {
+		keys = append(keys, k)
+	}
+	sort.Strings(keys)
+	key := ""
+	for _, k := range keys {
+		key += fmt.Sprintf("%s=%v;", k, m[k])
+	}
+	if e.ParamMaps == nil {
+		e.ParamMaps = map[string]map[string]any{}
+	}
+	if shared, ok := e.ParamMaps[key]; ok {
+		return shared
+	}
+	e.ParamMaps[key] = own(e, m)
+	return m
 }
 
 func (e *Env) schemaOpts(n *Node) []z.SchemaOption {
